@@ -12,6 +12,8 @@ import Pyunicorn.Model.Window
   | `N` (continue with ClimateData(obj.observable(), obj.grid, …))
   | `sh=<perms>` (shuffled_anomaly, one permutation per column, rows separated by `;`)
   | `cs` (`__cache_state__()`: the counter `_mut_window`)
+  | `shr=<draws>` (round 4: shuffled_anomaly on the raw 32-bit output stream of the generator;
+    answer = the matrix, `@`, the number of draws left over; `exhausted` if the stream runs out)
 
 `runreg <c> <anomflag> <init> <time> <latgrid> <longrid> <obs> <op>*`: the same on a file
 loaded from a regular grid (`Data.Load`): the node sequences are computed by the model.
@@ -80,6 +82,12 @@ def doOp (o : Obj) (tok : String) : String × Obj :=
     let (A, o') := o.anomalyQ
     let S := shuffledAnomaly A N (natMat (tok.drop 3).toString)
     (showMatS S.length N S, o')
+  else if tok.startsWith "shr=" then
+    -- `np.empty(anomaly().shape)`: any content (zeros here; `shuffled_anomaly_raw_spec`)
+    let (R, o') := o.shuffledAnomalyQ (List.replicate T (zeros N)) (nats (tok.drop 4).toString)
+    (match R with
+     | none => "exhausted"
+     | some (S, rest) => showMatS S.length N S ++ "@" ++ toString rest.length, o')
   else if tok.startsWith "im=" then
     (showRes showNats (indicesSelectedMonthsI o.cycle T (ints (tok.drop 3).toString)), o)
   else if tok.startsWith "W=" then
